@@ -9,6 +9,14 @@ import (
 // non-trivial rule); Violations is empty iff the property held.
 type verifC12Facts struct {
 	Violations []string
+	// KnownClass holds violations of clause (E) of one precisely delimited
+	// class, reported under the signature verifC12SigForwarded: a Future
+	// resolved successfully on a node that did not lead the term of the entry
+	// it was resolved with (the node tracked a future for a proposal it had
+	// forwarded as a follower). They are violations; the test decides through
+	// kit.KnownFinding whether they are already recorded.
+	KnownClass []string
+	AckedLost  int // acknowledged proposals whose command no replica ever applied
 
 	Applies           int
 	Commands          int // distinct (slot,index) commands
@@ -21,11 +29,14 @@ type verifC12Facts struct {
 	RestoresOpen      int
 	RestoresRunning   int // snapshot transfer into a running replica
 	Restarts          int
+	Kills             int // restarts that were power losses
 	Batches           int
 	MaxBatch          int
 	DupIDs            int // command ids present at more than one index (network duplicated a forwarded proposal)
 	ReplayedAfterOpen int // commands re-applied on top of a restored snapshot at restart
 }
+
+const verifC12SigForwarded = "ack-by-non-leader-of-term"
 
 type verifC12Key struct {
 	slot  int
@@ -49,8 +60,9 @@ type verifC12Key struct {
 //	(E) acknowledgements: a Future that reported success (index, term, data)
 //	    for proposal p => index holds p with that term on every replica that
 //	    applied or restored it, some replica did apply it, data is p's result;
-//	(F) after the healed, settled end: every replica holds every agreed
-//	    command, so no acknowledged proposal is lost.
+//	(F) after the healed, settled end: every replica holds every command
+//	    that was agreed before the settle point, so no acknowledged proposal
+//	    is lost.
 func verifC12Check(h *verifC12History) verifC12Facts {
 	var f verifC12Facts
 	bad := func(format string, a ...any) {
@@ -61,10 +73,19 @@ func verifC12Check(h *verifC12History) verifC12Facts {
 	events := append([]verifC12Event(nil), h.Events...)
 	sort.SliceStable(events, func(i, j int) bool { return events[i].Seq < events[j].Seq })
 
-	// pass 1: agreed command per (slot, index)
+	// pass 1: agreed command per (slot, index); who led which term
 	canon := map[verifC12Key]verifC12Cmd{}
 	first := map[verifC12Key]int{}
+	firstSeq := map[verifC12Key]int64{}
+	ledBy := map[[2]uint64]int{}
 	for _, e := range events {
+		if e.Kind == "leader" {
+			k := [2]uint64{uint64(e.Slot), e.Term}
+			if prev, ok := ledBy[k]; ok && prev != e.Node {
+				bad("(A) slot %d term %d: both node %d and node %d sent leader messages", e.Slot, e.Term, prev, e.Node)
+			}
+			ledBy[k] = e.Node
+		}
 		if e.Kind != "apply" {
 			continue
 		}
@@ -85,6 +106,7 @@ func verifC12Check(h *verifC12History) verifC12Facts {
 		}
 		canon[k] = verifC12Cmd{Index: e.Index, Term: e.Term, ID: e.ID}
 		first[k] = e.Node
+		firstSeq[k] = e.Seq
 	}
 	f.Commands = len(canon)
 	bySlot := map[int][]uint64{}
@@ -102,6 +124,17 @@ func verifC12Check(h *verifC12History) verifC12Facts {
 		if n > 1 {
 			f.DupIDs++
 		}
+	}
+	known := func(e verifC12Event, format string, a ...any) {
+		// the acknowledging node did not lead the term it reported => it had
+		// forwarded the proposal as a follower and matched the future FIFO
+		if leader, ok := ledBy[[2]uint64{uint64(e.Slot), e.Term}]; ok && leader != e.Node {
+			if len(f.KnownClass) < 20 {
+				f.KnownClass = append(f.KnownClass, fmt.Sprintf(format, a...)+fmt.Sprintf(" [node %d did not lead term %d, node %d did]", e.Node, e.Term, leader))
+			}
+			return
+		}
+		bad(format, a...)
 	}
 	for s := range bySlot {
 		sort.Slice(bySlot[s], func(i, j int) bool { return bySlot[s][i] < bySlot[s][j] })
@@ -146,6 +179,8 @@ func verifC12Check(h *verifC12History) verifC12Facts {
 			if e.Inc > 1 {
 				f.Restarts++
 			}
+		case "kill":
+			f.Kills++
 		case "apply":
 			r := rep(e.Node, e.Slot)
 			if e.Index <= r.cur {
@@ -223,9 +258,14 @@ func verifC12Check(h *verifC12History) verifC12Facts {
 			case !ok:
 				bad("(E) proposal %q was acknowledged by node %d at slot %d index %d term %d, but no replica applied a command at that index", e.ID, e.Node, e.Slot, e.Index, e.Term)
 			case c.ID != e.ID || c.Term != e.Term:
-				bad("(E) proposal %q was acknowledged by node %d at slot %d index %d term %d, but the replicas applied %q term %d there", e.ID, e.Node, e.Slot, e.Index, e.Term, c.ID, c.Term)
-			}
-			if e.Data != verifC12Result(e.ID) {
+				where := "and its own command was applied nowhere: the acknowledged write is lost"
+				if idIndexes[fmt.Sprintf("%d|%s", e.Slot, e.ID)] > 0 {
+					where = "its own command sits at another index"
+				} else {
+					f.AckedLost++
+				}
+				known(e, "(E) proposal %q was acknowledged by node %d at slot %d index %d term %d, but the replicas applied %q term %d there; %s", e.ID, e.Node, e.Slot, e.Index, e.Term, c.ID, c.Term, where)
+			case e.Data != verifC12Result(e.ID):
 				bad("(E) proposal %q acknowledged at slot %d index %d returned apply result %q, want %q", e.ID, e.Slot, e.Index, e.Data, verifC12Result(e.ID))
 			}
 		case "fail":
@@ -235,12 +275,18 @@ func verifC12Check(h *verifC12History) verifC12Facts {
 		}
 	}
 
-	// (F) end state
+	// (F) end state. Only commands some replica had applied before the
+	// settled poll round began are required: at that round every replica
+	// reported applied == the same commit index, which bounds their indexes.
+	// (Later commits may race with the shutdown, which closes nodes one by one.)
 	if h.Settled {
 		for node := 1; node <= h.Config.Nodes; node++ {
 			for slot := 1; slot <= h.Config.Slots; slot++ {
 				r := rep(node, slot)
 				for _, i := range bySlot[slot] {
+					if firstSeq[verifC12Key{slot, i}] >= h.SettleSeq {
+						continue
+					}
 					c := canon[verifC12Key{slot, i}]
 					got, ok := r.held[i]
 					if !ok {
